@@ -131,8 +131,24 @@ def shape_term(rnd, name, lo, hi, kinds=None, d=3, kind=None, degenerate=True, f
     return dict(cls=k, name=name, params=p, height=h)
 
 
-def build_term(fl, t, engine=None):
+def build_term(fl, t, engine=None, route=None):
+    """route: "constructor" (default), "factory" (term factory + configure(parameters)), "create" (Discrete.create forms)"""
     k = t["cls"]
+    if route == "factory" and k not in ("Function", "Linear", "Discrete", "Constant"):
+        term = fl.settings.factory_manager.term.construct(k, name=t["name"])
+        params = list(t["params"]) + ([t["height"]] if t.get("height", 1.0) != 1.0 else [])
+        term.configure(" ".join(repr(float(p)) for p in params))
+        return term
+    if route in ("create", "factory") and k == "Discrete":
+        xs, ys = t["params"][0::2], t["params"][1::2]
+        form = len(xs) % 4
+        if form == 0:
+            return fl.Discrete.create(t["name"], " ".join(repr(float(p)) for p in t["params"]), t["height"])
+        if form == 1:
+            return fl.Discrete.create(t["name"], (list(xs), list(ys)), t["height"])
+        if form == 2:
+            return fl.Discrete.create(t["name"], dict(zip(xs, ys)), t["height"])
+        return fl.Discrete(t["name"], list(t["params"]), t["height"])
     if k == "Constant":
         return fl.Constant(t["name"], t["params"][0])
     if k == "Linear":
